@@ -89,6 +89,35 @@ Definition xerr_status (e : xerr) : option N :=
   | _ => Some 400
   end.
 
+(* which [HttpError::for_bad_request] call site produced the error, as far as
+   a client can tell: by the fixed head of its message
+     1  "bad parameter in URL path: "            (http_util.rs)
+     2  "unable to parse query string: "         (query.rs)
+     3  "request body exceeded maximum size"     (body.rs, into_stream)
+     4  "invalid content type: "                 (body.rs: to_str failed; multipart: mime / not multipart)
+     6  "expected content type "                 (body.rs)
+     7  "unable to parse JSON body: "            (body.rs)
+     8  "unable to parse URL-encoded body: "     (body.rs)
+     9  "missing content-type header"            (body.rs, multipart)
+     10 "missing boundary in content-type header"
+     11 "invalid path encoding"                  (router.rs)
+     0  no fixed head (from_mime_type: the message is the media type itself) *)
+Definition xerr_class (e : xerr) : N :=
+  match e with
+  | XBadSegment => 11
+  | XBadPath _ => 1
+  | XBadQuery _ => 2
+  | XBodyTooLarge => 3
+  | XCtNotStr | XMimeParse | XNoMultipart => 4
+  | XCtUnknown => 0
+  | XCtMismatch => 6
+  | XJson => 7
+  | XForm _ => 8
+  | XNoCt => 9
+  | XNoBoundary => 10
+  | XPanic _ => 99
+  end.
+
 (* ----------------------------------------------------------- association *)
 
 Fixpoint assoc {A} (k : str) (l : list (str * A)) : option A :=
